@@ -28,6 +28,7 @@ from placement import exception
 from placement.handlers import util as data_util
 from placement import microversion
 from placement.objects import allocation as alloc_obj
+from placement.objects import consumer as consumer_obj
 from placement.objects import resource_provider as rp_obj
 from placement.policies import allocation as policies
 from placement.schemas import allocation as schema
@@ -466,6 +467,11 @@ def _set_allocations_for_consumer(req, schema):
         data_util.update_consumers([consumer], {consumer_uuid: request_attr})
 
         alloc_obj.replace_all(ctx, allocation_objects)
+        if created_new_consumer:
+            # An empty set of allocations for a consumer that did not exist
+            # yet writes nothing: do not keep the record created for it.
+            consumer_obj.delete_consumers_if_no_allocations(
+                ctx, [consumer_uuid])
         LOG.debug("Successfully wrote allocations %s", allocation_objects)
 
     def _create_allocations():
@@ -496,11 +502,6 @@ def _set_allocations_for_consumer(req, schema):
             'Inventory and/or allocations changed while attempting to '
             'allocate: %(error)s' % {'error': exc},
             comment=errors.CONCURRENT_UPDATE)
-
-    if created_new_consumer and not allocation_objects:
-        # An empty set of allocations for a consumer that did not exist yet
-        # writes nothing: do not keep the consumer record created for it.
-        delete_consumers([consumer])
 
     req.response.status = 204
     req.response.content_type = None
@@ -586,6 +587,10 @@ def set_allocations(req):
         data_util.update_consumers(consumers.values(), requested_attrs)
 
         alloc_obj.replace_all(ctx, allocations)
+        # An empty set of allocations for a consumer that did not exist yet
+        # writes nothing: do not keep the records created for such entries.
+        consumer_obj.delete_consumers_if_no_allocations(
+            ctx, [c.uuid for c in new_consumers_created])
         LOG.debug("Successfully wrote allocations %s", allocations)
 
     def _create_allocations():
@@ -614,11 +619,6 @@ def set_allocations(req):
             'Inventory and/or allocations changed while attempting to '
             'allocate: %(error)s' % {'error': exc},
             comment=errors.CONCURRENT_UPDATE)
-
-    # An empty set of allocations for a consumer that did not exist yet writes
-    # nothing: do not keep the consumer records created for such entries.
-    delete_consumers([consumer for consumer in new_consumers_created
-                      if not data[consumer.uuid]['allocations']])
 
     req.response.status = 204
     req.response.content_type = None
